@@ -411,6 +411,10 @@ namespace awkward {
     IndexOf<T> tags(contentlen);
     IndexOf<I> index(contentlen);
 
+    if (counts.size() > (size_t)kMaxInt8) {
+      throw std::invalid_argument(
+        std::string("UnionArray cannot have more than 127 contents") + FILENAME(__LINE__));
+    }
     for (T tag = 0;  tag < (T)counts.size();  tag++) {
       struct Error err = kernel::UnionArray_nestedfill_tags_index_64(
         kernel::lib::cpu,   // DERIVE
